@@ -39,7 +39,12 @@ ALPHA = [
 ]
 
 
-def programs(k):
+# the statements whose interplay carries simulator/evaluator state from one operation to the next (flips, cx in both roles, measurement,
+# every kind of reset and re-allocation): sequences over this core are enumerated one statement deeper than the full alphabet
+CORE = [0, 1, 5, 6, 7, 12, 15, 17, 18, 19]
+
+
+def programs(k, only=None):
     out = []
 
     def rec(seq, measured):
@@ -48,6 +53,8 @@ def programs(k):
         if len(seq) >= k:
             return
         for i, (txt, need, meas, res) in enumerate(ALPHA):
+            if only is not None and i not in only:
+                continue
             if need & measured:
                 continue
             seq.append(i)
@@ -164,6 +171,8 @@ def main(tier):
     k = 4 if tier == "thorough" else 3
     ck.set_deadline(1500 if tier == "thorough" else 160)
     progs = programs(k)
+    have = set(map(tuple, progs))
+    progs += [q for q in programs(k + 1, set(CORE)) if tuple(q) not in have]
     rot = ck.seed % len(progs)
     progs = progs[rot:] + progs[:rot]
     nprog = nruns = nshapes = 0
@@ -192,4 +201,4 @@ def main(tier):
     ck.assumptions += ["angles are compared to the tapped rotation with the six-decimal precision of std::to_string (5e-7); the replay tolerance is 1e-5 per rotation",
                        "the reader accepts exactly what the property describes (header, one qreg/creg of equal size, g q[i]; r(theta) q[i]; cx q[i],q[j] with i != j; measure q[i] -> c[i]; reset q[i];)"]
     ck.finish({"programs": nprog, "disagreements_checked": nruns, "samples": ck.samples or ["(none)"], "programs_total": len(progs), "runs": nruns, "distinct_operation_sequences": nshapes,
-               "cli_programs": ncli, "statement_bound": k, "evaluations": nruns, "distinct_nontrivial": nshapes}, exhaustive=True)
+               "cli_programs": ncli, "statement_bound": k, "core_statement_bound": k + 1, "core_alphabet": len(CORE), "evaluations": nruns, "distinct_nontrivial": nshapes}, exhaustive=True)
